@@ -40,7 +40,9 @@ ClockFile(muts, k, st) ==
 
 (* what makes a path crash-safe: each entity is published by a single mutation of its ref, every object written is
    followed by the ref mutation that publishes it, and a clock file is only ever replaced atomically *)
-ObjsBeforeRef(muts) == \A i \in DOMAIN muts : muts[i].kind \in Objs => \E j \in DOMAIN muts : j > i /\ IsRef(muts[j])
+(* a call that publishes something writes its objects before a ref mutation; a call that ends up publishing nothing (a
+   refused merge) may leave unreferenced objects behind: garbage, not state *)
+ObjsBeforeRef(muts) == (Ents(muts) # {}) => \A i \in DOMAIN muts : muts[i].kind \in Objs => \E j \in DOMAIN muts : j > i /\ IsRef(muts[j])
 SingleRef(muts) == \A e \in Ents(muts) : RefsTotal(muts, e) <= 1
 AtomicClock(muts) == \A i \in DOMAIN muts : muts[i].kind \notin {"fs-open-trunc", "fs-write"}
 WellFormed(muts) == ObjsBeforeRef(muts) /\ SingleRef(muts) /\ AtomicClock(muts)
